@@ -13,6 +13,10 @@ tree with `ast` and regenerates lean/FordModel/Generated/C07.lean:
                entity is filed under its local name and under nothing else), and the direction of
                the `used_names` entries
 
+  blockGuards / blockCounter / useBranchBlockAware : the statement dispatcher and BLOCK constructs -
+               which branches are switched off while `blocklevel > 0` (block-local declarations are
+               not filed in the enclosing unit)
+
 A construct that cannot be found raises (tie broken, never a pass).
 """
 from __future__ import annotations
@@ -171,6 +175,87 @@ def extract_use():
     return {"used_objects": uo, "used_names": un, "whole": whole, "calls": calls}
 
 
+def _conjuncts(test):
+    if isinstance(test, ast.BoolOp) and isinstance(test.op, ast.And):
+        out = []
+        for v in test.values:
+            out += _conjuncts(v)
+        return out
+    return [test]
+
+
+def _is_blocklevel_zero(node):
+    return (isinstance(node, ast.Compare) and isinstance(node.left, ast.Name) and node.left.id == "blocklevel"
+            and len(node.ops) == 1 and isinstance(node.ops[0], ast.Eq)
+            and isinstance(node.comparators[0], ast.Constant) and node.comparators[0].value == 0)
+
+
+def extract_blocks():
+    """The statement dispatcher `FortranContainer.__init__` and BLOCK constructs: for every branch of
+    the if/elif chain of the `for line in source` loop that tests a `self.<X>_RE`, whether the test
+    carries the conjunct `blocklevel == 0` (the statement is then NOT filed in the enclosing unit
+    while inside a BLOCK); where `blocklevel` is counted up and down; whether the body of the USE
+    branch looks at `blocklevel` itself."""
+    tree = ast.parse(_src())
+    fn = _method(tree, "FortranContainer", "__init__")
+    loop = None
+    for n in ast.walk(fn):
+        if isinstance(n, ast.For) and isinstance(n.target, ast.Name) and n.target.id == "line" \
+                and isinstance(n.iter, ast.Name) and n.iter.id == "source":
+            loop = n
+    if loop is None:
+        raise LookupError("FortranContainer.__init__: `for line in source` not found")
+    # the if/elif chain with the most branches
+    best = []
+    for st in loop.body:
+        if isinstance(st, ast.If):
+            chain = []
+            cur = st
+            while True:
+                chain.append(cur)
+                if len(cur.orelse) == 1 and isinstance(cur.orelse[0], ast.If):
+                    cur = cur.orelse[0]
+                else:
+                    break
+            if len(chain) > len(best):
+                best = chain
+    if len(best) < 10:
+        raise LookupError("FortranContainer.__init__: statement dispatcher (if/elif chain) not found")
+    guards = []
+    counter = []
+    use_aware = None
+    for br in best:
+        regs = sorted({n.attr for n in ast.walk(br.test) if isinstance(n, ast.Attribute) and n.attr.endswith("_RE")
+                       and isinstance(n.value, ast.Name) and n.value.id == "self"})
+        guarded = any(_is_blocklevel_zero(c) for c in _conjuncts(br.test))
+        other = [c for c in ast.walk(br.test) if isinstance(c, ast.Name) and c.id == "blocklevel"]
+        if other and not guarded:
+            raise LookupError(f"dispatcher branch {ast.unparse(br.test)!r}: use of blocklevel not recognised")
+        for r in regs:
+            guards.append((r, guarded))
+        for n in ast.walk(ast.Module(body=br.body, type_ignores=[])):
+            if isinstance(n, ast.AugAssign) and isinstance(n.target, ast.Name) and n.target.id == "blocklevel":
+                counter.append(("+".join(regs) or ast.unparse(br.test), ast.unparse(n)))
+        if "USE_RE" in regs:
+            use_aware = any(isinstance(n, ast.Name) and n.id == "blocklevel"
+                            for n in ast.walk(ast.Module(body=br.body, type_ignores=[])))
+    names = [g[0] for g in guards]
+    for need in ("USE_RE", "TYPE_RE", "INTERFACE_RE", "ENUM_RE", "VARIABLE_RE", "ATTRIB_RE", "BLOCK_RE", "END_RE"):
+        if names.count(need) != 1:
+            raise LookupError(f"dispatcher: exactly one branch testing self.{need} expected, found {names.count(need)}")
+    if use_aware is None or not counter:
+        raise LookupError("dispatcher: USE branch / blocklevel counting not found")
+    return {"guards": guards, "counter": counter, "use_aware": use_aware}
+
+
+def block_variant():
+    """'1' = USE statements inside a BLOCK are filed in the enclosing unit like its own, '0' = not,
+    as read from the source."""
+    b = extract_blocks()
+    g = dict(b["guards"])
+    return "0" if (g["USE_RE"] or b["use_aware"]) else "1"
+
+
 def code_variant():
     """'11' / '00' / ... as read from the source, or None when the shape is neither."""
     x = extract()["host"]
@@ -198,6 +283,7 @@ def _ltup(xs):
 def generate():
     x = extract()
     u = extract_use()
+    b = extract_blocks()
     lines = [
         "/- GENERATED by translate/c07.py from ford/sourceform.py - do not edit -/",
         "namespace Ford.C07Gen",
@@ -232,6 +318,17 @@ def generate():
         "",
         "/-- a USE without list: (condition, returned tables) -/",
         f"def useWithoutList : String × String := ({_q(u['whole'][0])}, {_q(u['whole'][1])})",
+        "",
+        "/-- statement dispatcher FortranContainer.__init__: (regular expression the branch tests, the test has",
+        "    the conjunct `blocklevel == 0`) in source order -/",
+        "def blockGuards : List (String × Bool) := ["
+        + ", ".join(f'({_q(k)}, {"true" if v else "false"})' for k, v in b["guards"]) + "]",
+        "",
+        "/-- where `blocklevel` is counted: (branch, statement) -/",
+        f"def blockCounter : List (String × String) := {_ltup(b['counter'])}",
+        "",
+        "/-- the body of the USE branch looks at `blocklevel` itself -/",
+        f"def useBranchBlockAware : Bool := {'true' if b['use_aware'] else 'false'}",
         "",
         "end Ford.C07Gen",
         "",
